@@ -287,12 +287,12 @@ func init() {
 		Rule: "Harness in harness/websocket/c15.go: engine threads for one data writer (multi-frame message), 1-2 control senders and an optional closer on one connection; every order of their acquiring operations (c.mu receive/select, writeErrMu, result channels) is a forked schedule decision, reduced by sleep sets; the captured transport writes are parsed by the independent frame parser.",
 		Assumptions: append([]string{
 			"scheduling choices are made before acquiring operations (lock, channel receive, blocking send, select); releasing operations (unlock, non-blocking buffered send) need none; sleep sets prune reorderings of independent operations (operations on different synchronisation objects); both reductions are sound for data-race-free executions and races are reported by the vector-clock detector",
-			"no concurrent reader thread (it shares state with writers only through WriteControl); the data writer has no write deadline; a control sender's finite deadline may expire only while it waits for the write lock (the timer is decided when the select first looks at it)",
+			"no concurrent reader thread (it shares state with writers only through WriteControl); the data writer works without or (no closer, buffered path) with a write deadline of its own and closes its message writer whatever Write returned; a finite deadline may expire only while its owner waits for the write lock (the timer is decided when the select first looks at it); the harness transport honours write deadlines like a net.Conn in one respect: a deadline put on the connection while a Write without deadline is in progress cuts that Write short",
 			"schedule-dependent counterexamples are reproduced natively by re-running the case under schedule perturbation (up to 400 attempts, -race); a counterexample that does not reproduce is reported as ENGINE-MISMATCH, not as a violation",
 		}, wsAssume...),
 		Harnesses: []harnessSpec{
 			{Pkg: "websocket", Func: "HarnessC15_Concurrent", TimeFixed: true, TimersMayFire: true, Race: true, Labels: []string{"concurrent"},
-				Bound:  "client or server; data message of 2 (thorough 2-3) symbolic bytes sent through a 15-byte write buffer (3-4 frames) or, as server, 31 bytes in one unbuffered write; 1 ping sender with a 1-byte (thorough 0-1) payload, without deadline or with a deadline that may expire while it waits for the write lock; optional close sender; all schedules",
+				Bound:  "client or server; data message of 2 (thorough 2-3) symbolic bytes sent through a 15-byte write buffer (3-4 frames) or, as server, 31 bytes in one unbuffered write; 1 ping sender with a 1-byte (thorough 0-1) payload, without deadline or with a deadline that may expire while it waits for the write lock; optional close sender; data writer optionally under its own write deadline; transport that applies a deadline set during a write; all schedules",
 				BoundT: "1-2 control senders (ping, pong) when no close sender takes part; with the close sender, 1 control sender (the 4-party space, >5 million schedules, was explored once in 35 min without a counterexample and is outside the registered bound)"},
 		},
 	})
